@@ -769,7 +769,7 @@ Qed.
 Lemma Q_xa_set : forall W ops xa' rf w,
   (forall u x, RQ W ops QNone rf u x (st w) -> qsem xa' (fst x) (st w)) ->
   QINV (RQ W ops QNone rf) w -> QINV (RQ W ops xa' rf) w.
-Proof. intros W ops xa' rf w H HI. eapply Q_weaken; [|exact HI]. intros u x HR. apply RQ_xa_set; auto. Qed.
+Proof. intros W ops xa' rf w H HI. eapply Q_weaken; [|exact HI]. intros u x HR. apply RQ_xa_set; [exact HR|apply (H u x HR)]. Qed.
 
 Lemma Q_xa_drop : forall W ops xa rf w, (forall c, xa <> QX c) -> (forall c, xa <> QRegd c) ->
   QINV (RQ W ops xa rf) w -> QINV (RQ W ops QNone rf) w.
@@ -779,12 +779,132 @@ Proof. intros W ops xa rf w N1 N2 HI. eapply Q_weaken; [|exact HI]. intros u x H
 Lemma Q_owed_x : forall W ops rf k c w, k = "eagain" \/ k = "rearm-write" ->
   QINV (RQ W ops (QX c) rf) w -> QINV (RQ W ops QNone rf) (ghost k c [] w).
 Proof.
-  intros W ops rf k c w Hk HI.
-  pose proof (Q_owed _ _ _ _ k c _ Hk HI) as H. cbn in H.
-  eapply Q_weaken; [|exact H]. intros u [p b] HR.
-  assert (Hp : zmem c (p_owed p) = true -> RQ W ops QNone rf u (p, b) (st (ghost k c [] w))).
-  { intros Ho. eapply RQ_unexempt; [exact HR|left; reflexivity|].
-    intros fd _ _ _ _ _. unfold served. pose proof (q_x _ _ _ _ _ _ _ HR) as X. cbn [qsem] in X. rewrite X. exact Ho. }
-  (* the marker just emitted put c in p_owed; recover it from the run: restate on the emit *)
-  clear Hp. admit.
-Admitted.
+  intros W ops rf k c w Hk HI. unfold ghost. eapply Inv_emit; [exact HI|destruct Hk; subst; reflexivity|].
+  intros [] [p b] _ HR. cbn [ustep]. eexists. split.
+  - apply qstep_g; try (destruct Hk; subst; discriminate). destruct Hk; subst; reflexivity.
+  - pose proof (RQ_owed_add _ _ _ _ _ _ _ _ c HR) as H1. cbn in H1.
+    eapply RQ_unexempt; [exact H1|left; reflexivity|].
+    intros fd _ _ _ _ _. unfold served. pose proof (q_x _ _ _ _ _ _ _ HR) as X. cbn [qsem] in X. rewrite X.
+    cbn [set_owed p_owed]. rewrite zmem_cons, Z.eqb_refl. reflexivity.
+Qed.
+
+Lemma RQ_dead_add : forall W ops xa rf u p b s c,
+  RQ W ops xa rf u (p, b) s ->
+  RQ W ops xa rf u (mkP (p_et p) (p_want_w p) (p_last p) (p_owed p) (p_dirty p) (c :: p_dead p), b) s.
+Proof.
+  intros W ops xa rf u p b s c HR.
+  assert (Hd : forall c0, pdead p c0 = true -> pdead (mkP (p_et p) (p_want_w p) (p_last p) (p_owed p) (p_dirty p) (c :: p_dead p)) c0 = true).
+  { intros c0 H. unfold pdead in *. cbn [p_dead]. rewrite zmem_cons, H. apply orb_true_r. }
+  assert (Hd' : forall c0, pdead (mkP (p_et p) (p_want_w p) (p_last p) (p_owed p) (p_dirty p) (c :: p_dead p)) c0 = false -> pdead p c0 = false).
+  { intros c0 H. destruct (pdead p c0) eqn:E; [rewrite (Hd _ E) in H; discriminate|reflexivity]. }
+  eapply RQ_prog; [exact HR|reflexivity|exact (q_last _ _ _ _ _ _ _ HR)|exact Hd| | | |].
+  - intros fd c0 H D. apply (q_regop _ _ _ _ _ _ _ HR fd c0 H). apply Hd'. exact D.
+  - intros c0 A B D E. apply (q_nop _ _ _ _ _ _ _ HR c0 A B); [apply Hd'; exact D|exact E].
+  - intros fd c0 H A D E F G. apply (q_main _ _ _ _ _ _ _ HR fd c0 H A); auto.
+  - pose proof (q_x _ _ _ _ _ _ _ HR) as X. destruct xa; exact X.
+Qed.
+
+Lemma Q_fail_x : forall W ops rf c w,
+  QINV (RQ W ops (QX c) rf) w -> QINV (RQ W ops QNone rf) (ghost "fail" c [] w).
+Proof.
+  intros W ops rf c w HI. unfold ghost. eapply Inv_emit; [exact HI|reflexivity|].
+  intros [] [p b] _ HR. cbn [ustep]. eexists. split.
+  - apply qstep_g; try discriminate. reflexivity.
+  - eapply RQ_unexempt; [apply RQ_dead_add; exact HR|left; reflexivity|].
+    intros fd _ _ D. exfalso. unfold pdead in D. cbn [p_dead] in D. rewrite zmem_cons, Z.eqb_refl in D. discriminate.
+Qed.
+
+(* ------------------------------------------------------------------ *)
+(* ReadFrom and Flush *)
+
+Lemma qstep_hr : forall p b cid call vals p',
+  prog_step p (EOut ("hr", AInt cid :: ASym call :: vals)) = Some p' ->
+  qstep (p, b) (EOut ("hr", AInt cid :: ASym call :: vals)) = Some (p', b).
+Proof.
+  intros p b cid call vals p' E. unfold qstep, rdx. cbn [fst snd]. rewrite E. destruct et; reflexivity.
+Qed.
+
+Lemma Q_hr_readfrom : forall W ops rf cid vals w c',
+  c_fd c' = c_fd (wc w cid) -> c_opened c' = c_opened (wc w cid) -> c_udp c' = c_udp (wc w cid) ->
+  QINV (RQ W ops QNone rf) w ->
+  QINV (RQ W ops QNone rf) (emit (obs "hr" (AInt cid :: ASym "readfrom" :: vals)) (wsetc w cid c')).
+Proof.
+  intros W ops rf cid vals w c' Hf Ho Hu HI. eapply Inv_wsetc_emit; [exact HI|reflexivity|].
+  intros [] [p b] _ HR. cbn [ustep]. eexists. split; [apply qstep_hr; reflexivity|]. unfold wc in *.
+  set (p' := mkP (p_et p) (p_want_w p) (p_last p) (p_owed p) (cid :: p_dirty p) (p_dead p)).
+  assert (Hd : pdirty p' cid = true) by (unfold pdirty, p'; cbn [p_dirty]; rewrite zmem_cons, Z.eqb_refl; reflexivity).
+  assert (Hd' : forall c0, pdirty p' c0 = false -> pdirty p c0 = false).
+  { intros c0 H. unfold pdirty, p' in *. cbn [p_dirty] in H. rewrite zmem_cons in H. apply orb_false_elim in H. tauto. }
+  assert (HR' : RQ W ops QNone rf tt (p', b) (st w)).
+  { eapply RQ_prog; [exact HR|reflexivity|exact (q_last _ _ _ _ _ _ _ HR)|auto| | | |exact I].
+    - exact (q_regop _ _ _ _ _ _ _ HR).
+    - intros c0 A B D E. apply (q_nop _ _ _ _ _ _ _ HR c0 A B D). apply Hd'. exact E.
+    - intros fd c0 H A D E F G. apply (q_main _ _ _ _ _ _ _ HR fd c0 H A D); auto. }
+  apply RQ_setc; auto; try congruence; try discriminate.
+Qed.
+
+Lemma Q_hr_flush_nil : forall W ops rf cid w,
+  (forall u p b, RQ W ops QNone rf u (p, b) (st w) ->
+     (c_opened (wc w cid) = false -> c_udp (wc w cid) = false -> pdead p cid = false -> c_out (wc w cid) = []) /\
+     (forall fd, In (fd, cid) (l_reg (st w)) -> c_udp (wc w cid) = false -> pdead p cid = false ->
+        c_out (wc w cid) <> [] -> served p fd cid)) ->
+  QINV (RQ W ops QNone rf) w ->
+  QINV (RQ W ops QNone rf) (emit (obs "hr" [AInt cid; ASym "flush"; ASym "nil"]) w).
+Proof.
+  intros W ops rf cid w Hc HI. eapply Inv_emit; [exact HI|reflexivity|].
+  intros [] [p b] _ HR. cbn [ustep]. eexists. split; [apply qstep_hr; reflexivity|].
+  destruct (Hc _ _ _ HR) as [C1 C2]. unfold wc in *.
+  set (p' := mkP (p_et p) (p_want_w p) (p_last p) (p_owed p) (zrem cid (p_dirty p)) (p_dead p)).
+  assert (Hd : forall c0, c0 <> cid -> pdirty p' c0 = pdirty p c0).
+  { intros c0 N. unfold pdirty, p'. cbn [p_dirty]. rewrite zmem_zrem. replace (c0 =? cid) with false by lia. reflexivity. }
+  eapply RQ_prog; [exact HR|reflexivity|exact (q_last _ _ _ _ _ _ _ HR)|auto| | | |exact I].
+  - exact (q_regop _ _ _ _ _ _ _ HR).
+  - intros c0 A B D E. destruct (Z.eq_dec c0 cid) as [->|N]; [apply C1; auto|].
+    apply (q_nop _ _ _ _ _ _ _ HR c0 A B D). cbn [fst]. rewrite <- (Hd _ N). exact E.
+  - intros fd c0 H A D E F G. destruct (Z.eq_dec c0 cid) as [->|N].
+    + unfold served in *. cbn [p_owed p_want_w]. apply C2; auto.
+    + assert (M : served p fd c0) by (apply (q_main _ _ _ _ _ _ _ HR fd c0 H A D); auto; cbn [fst]; rewrite <- (Hd _ N); exact E).
+      exact M.
+Qed.
+
+End ET.
+
+(* the trigger mode never changes *)
+Lemma apply_async_et : forall s l s', apply_async s l = Some s' -> l_et s' = l_et s.
+Proof.
+  intros s l s' E. apply apply_async_cases in E. destruct E as [(b & t & _ & ->)|(b & c & cb & _ & ->)];
+    cbn [set_flag set_queues l_et]; unfold enqueue; destruct (_ && _); reflexivity.
+Qed.
+
+Lemma pull_from_et : forall picks i s lg s' lg' o r,
+  pull_from picks s lg i = (s', lg', o, r) -> l_et s' = l_et s.
+Proof.
+  intros picks. induction i as [|l i IH]; intros s lg s' lg' o r E; cbn [pull_from] in E.
+  - inversion E; reflexivity.
+  - destruct (apply_async s l) as [s1|] eqn:Ea.
+    + rewrite (IH _ _ _ _ _ _ E). eapply apply_async_et; eauto.
+    + destruct (negb picks && is_pick l); [eauto|inversion E; reflexivity].
+Qed.
+
+Lemma pull_gen_et : forall picks w o w', pull_gen picks w = (o, w') -> l_et (st w') = l_et (st w).
+Proof.
+  intros picks w o w' E. unfold pull_gen in E. destruct (halt w); [inversion E; reflexivity|].
+  destruct (pull_from picks (st w) (log w) (inp w)) as [[[s lg] o'] r] eqn:Ep.
+  pose proof (pull_from_et _ _ _ _ _ _ _ _ Ep) as H. destruct o'; inversion E; subst; exact H.
+Qed.
+
+Lemma sys_wr_et : forall cid fd src exact w k w', sys_wr cid fd src exact w = (k, w') -> l_et (st w') = l_et (st w).
+Proof.
+  intros cid fd src exact w k w' E. rewrite sys_wr_eq in E.
+  destruct (pull _) as [[[nm0 args]|] w1] eqn:Ep; pose proof (pull_gen_et _ _ _ _ Ep) as H1; rewrite st_emit in H1.
+  2:{ inversion E; subst; exact H1. }
+  assert (Hd : forall what, l_et (st (desync what w1)) = l_et (st w)) by (intros; rewrite st_desync; exact H1).
+  destruct (String.eqb nm0 "r"); [|inversion E; subst; apply Hd].
+  destruct args as [|[?|?|nm] [|[off|?|?] [|[n|?|?] rest]]]; try (inversion E; subst; apply Hd).
+  destruct (negb (sym_eqb nm "wr")); [inversion E; subst; apply Hd|].
+  destruct (_ || _ || _); [inversion E; subst; apply Hd|].
+  cbv zeta in E. destruct (n <? 0).
+  - destruct rest as [|[?|?|e] ?]; inversion E; subst; rewrite ?st_ghost, ?st_emit; try exact H1.
+    destruct (is_eagain e); rewrite ?st_ghost, ?st_emit; exact H1.
+  - inversion E; subst. rewrite st_ghost, st_emit. exact H1.
+Qed.
